@@ -15,8 +15,6 @@ def build(repo, findings):
     f = interp.block_slice(r'^\s*let join_handle = tokio::spawn\(async move \{$',
                            'fn background_task_body(cloned_ao_list: ast::AndOrList, mut cloned_shell: Shell, cloned_params: ExecutionParameters) -> Result<ExecutionResult, error::Error>', fn, within_fn='spawn_async_ao_list_in_task')
     f.r1().r3()
-    f.resub(r'^[ \t]*let mut stderr = cloned_params\.stderr\(&cloned_shell\);\n', '', 'R2', 'stderr handle used only by the dropped diagnostic', count=None)
-    f.resub(r'^[ \t]*let _ = cloned_shell\.display_error\([^;]*\);\n', '', 'R2', 'diagnostic whose result is discarded dropped', count=None)
     f.sig(fn, ret='res', ensures=[
         C('C17 background-failure-is-a-status-not-a-wait-error', 'res is Ok'),
         C('C17 background-status-preserved', 'res is Ok ==> res->Ok_0.exit_code == list_code(cloned_ao_list, cloned_shell, cloned_params.suppress_errexit)'),
@@ -30,8 +28,6 @@ def build(repo, findings):
     g = interp.block_slice(r'^ {8}let join_handle = tokio::spawn\(async move \{$',
                            'fn coproc_task_body(body: CoprocBody, mut child_shell: Shell, child_params: ExecutionParameters) -> Result<ExecutionResult, error::Error>', fn)
     g.r1().r3()
-    g.resub(r'^[ \t]*let mut stderr = child_params\.stderr\(&child_shell\);\n', '', 'R2', 'stderr handle used only by the dropped diagnostic', count=None)
-    g.resub(r'^[ \t]*let _ = child_shell\.display_error\([^;]*\);\n', '', 'R2', 'diagnostic whose result is discarded dropped', count=None)
     g.sig(fn, ret='res', ensures=[
         C('C17 coprocess-failure-is-a-status-not-a-wait-error', 'res is Ok'),
         C('C17 coprocess-status-preserved', '''match coproc_launch_spec(body, child_shell) {
@@ -44,7 +40,7 @@ def build(repo, findings):
     ])
     u.add(g)
     u.raw(FOOTER)
-    u.assume('external_body', 'the and-or list child (result a function of list, shell-before, flag) and Error::into_result are stubs with uninterpreted results; tokio::spawn and the JoinHandle are outside the slice')
+    u.assume('external_body', 'the and-or list child (result a function of list, shell-before, flag), Error::into_result, and the diagnostic (stderr handle, display_error: may fail) are stubs with uninterpreted results; tokio::spawn and the JoinHandle are outside the slice')
     u.assume('uninterp', 'clone_spec, exec_spec, into_result_spec')
     u.expected_min_fns = 15
     return u
